@@ -16,6 +16,7 @@ package main
 
 import (
 	"fmt"
+	"go/types"
 	"os"
 	"runtime"
 	"sort"
@@ -44,6 +45,17 @@ type composeSpec struct {
 	// steps: further calls made on every finished state of the previous call
 	// (the step reads the previous result from the state)
 	steps []composeStep
+	// optional: the entry is an unexported helper whose clause is also covered
+	// through its caller's spec; when it is gone the spec is kept as unconfirmed
+	optional bool
+	// requires: callees the judge reads events of; when the composing function
+	// (or a function of its package it calls, two levels down) never calls one of
+	// them, the code has another form than the one the judge can read: the spec is
+	// kept as unconfirmed instead of being judged on events that cannot occur
+	requires []string
+	// noLiteralOf: a type (suffix of its full name) the function must not build by
+	// a composite literal of its own, for the same reason
+	noLiteralOf string
 	// maxIter: bound on iterations of loops with decided conditions (0 = default 5000)
 	maxIter int
 	// termLimit: computed floats with larger terms become plain unknowns (0 = no limit)
@@ -215,7 +227,15 @@ func ruleCompose(mk func(thorough bool) []composeSpec, floor int) ruleFunc {
 		}
 		for si, sp := range specs {
 			if p.funcByShortKey(sp.entry) == nil {
+				if sp.optional {
+					c.R.Add("A-comp", sp.entry, Unconfirmed, "", "helper not found (inlined or renamed); its clause is left to the specs of its callers ("+sp.desc+")")
+					continue
+				}
 				c.R.Unknown("A-comp", sp.entry, "", "composing function not found")
+				continue
+			}
+			if why := missingRequired(p, sp); why != "" {
+				c.R.Add("A-comp", sp.entry, Unconfirmed, p.Pos(p.funcByShortKey(sp.entry).Pos()), why)
 				continue
 			}
 			missing := ""
@@ -857,4 +877,62 @@ func (p *Program) externalFunc(key string) *ssa.Function {
 		}
 	}
 	return nil
+}
+
+// missingRequired: "" when every callee named in sp.requires is called
+// statically from the entry or from a same-package function it calls (two
+// levels down); otherwise the reason.
+func missingRequired(p *Program, sp composeSpec) string {
+	if len(sp.requires) == 0 && sp.noLiteralOf == "" {
+		return ""
+	}
+	entry := p.funcByShortKey(sp.entry)
+	seen := map[*ssa.Function]bool{}
+	called := map[string]bool{}
+	var walk func(fn *ssa.Function, depth int)
+	walk = func(fn *ssa.Function, depth int) {
+		if fn == nil || seen[fn] {
+			return
+		}
+		seen[fn] = true
+		for _, af := range fn.AnonFuncs {
+			walk(af, depth)
+		}
+		for _, b := range fn.Blocks {
+			for _, in := range b.Instrs {
+				cc, ok := in.(ssa.CallInstruction)
+				if !ok {
+					continue
+				}
+				callee := cc.Common().StaticCallee()
+				if callee == nil {
+					continue
+				}
+				called[ShortKey(FuncKey(callee))] = true
+				if depth < 2 && callee.Pkg != nil && callee.Pkg == entry.Pkg {
+					walk(callee, depth+1)
+				}
+			}
+		}
+	}
+	walk(entry, 0)
+	if sp.noLiteralOf != "" {
+		for fn := range seen {
+			for _, b := range fn.Blocks {
+				for _, in := range b.Instrs {
+					if al, ok := in.(*ssa.Alloc); ok {
+						if pt, ok := al.Type().Underlying().(*types.Pointer); ok && strings.HasSuffix(pt.Elem().String(), sp.noLiteralOf) {
+							return "the function builds a " + sp.noLiteralOf + " value itself instead of (or besides) calling the constructor whose calls the judge reads: form not recognised; the clause is not decided here (" + sp.desc + ")"
+						}
+					}
+				}
+			}
+		}
+	}
+	for _, r := range sp.requires {
+		if !called[r] {
+			return "the function never calls " + r + ", whose calls the judge reads: the code has a form this rule does not recognise; the clause is not decided here (" + sp.desc + ")"
+		}
+	}
+	return ""
 }
